@@ -803,7 +803,7 @@ func (fr *Frame) execBlock(b *ssa.BasicBlock, st *State) error {
 				}
 				vals = append(vals, v)
 			}
-			fr.rets = append(fr.rets, retRec{st: st.clone(), vals: vals, pos: posLabel(r, x.Pos())})
+			fr.rets = append(fr.rets, retRec{st: st.clone(), vals: vals, pos: posLabel(r, x.Pos()), at: x.Pos()})
 		case *ssa.Panic:
 			if r.safety {
 				r.addOblig(&Oblig{Name: fr.oblName("safe.panic", posLabel(r, x.Pos())), Kind: "safe.panic", Func: r.eng.fnName(fr.fn), Text: "explicit panic is unreachable", Guard: st.guard, Goal: "false"})
